@@ -193,7 +193,10 @@ def u_get_destinations(ctx, index):
 def units():
   return [Unit('routers.ConsistentHashingRouter.getDestinations', u_get_destinations,
                [CHRouter + '.getDestinations', CHRouter + '.getKey'],
-               expect_covers=['getDestinations/returns'], replay=replay_router)]
+               expect_covers=['getDestinations/returns'], replay=replay_router,
+               native_clauses=['C05/getDestinations/card', 'C05/getDestinations/distinct',
+                               'C05/getDestinations/configured', 'C05/getDestinations/diverse',
+                               'C05/getDestinations/no_raise'])]
 
 
 def replay_router(model, ob):
